@@ -166,3 +166,19 @@ Lemma failed_ctor_refuted :
   klive (krun attrs_guarded true true failed_ctor_history) = [1; 2; 3] ∧
   klive (krun attrs_raw_then_convert false false failed_ctor_history) = [1; 2; 3].
 Proof. vm_compute. done. Qed.
+
+(** [fail_states] is what [crun] leaves behind when it raises. *)
+Lemma crun_fail_state l : ∀ f d h m h' m',
+  crun l f d h m = (h', m', false) → half_abs h' ∈ fail_states l (bool_decide (is_Some (hid h))) (hreg h) (hown h).
+Proof.
+  induction l as [|s r IH]; intros f d h m h' m' Hr; simpl in *; [done|]. destruct s.
+  - specialize (IH _ _ _ _ _ _ Hr). simpl in IH. exact IH.
+  - destruct f as [[|n]|].
+    + inversion Hr; subst. left.
+    + right. exact (IH _ _ _ _ _ _ Hr).
+    + right. exact (IH _ _ _ _ _ _ Hr).
+  - destruct (get_id (default d (hid h)) m) as [[i m1]|] eqn:E.
+    + specialize (IH _ _ _ _ _ _ Hr). simpl in IH. exact IH.
+    + destruct (get_id_total (default d (hid h)) m) as [x Hx]. rewrite Hx in E. done.
+  - specialize (IH _ _ _ _ _ _ Hr). simpl in IH. exact IH.
+Qed.
